@@ -121,3 +121,23 @@ Proof. vm_compute. reflexivity. Qed.
 Lemma w_k5_two_terminal_writes_diverges : diverges w_k5_two_terminal_writes = true.
 Proof. vm_compute. reflexivity. Qed.
 
+
+(* the five refutations *)
+Lemma k1_refuted : exists c, C13_mismatch c = false /\ C13_monitor c = 2 /\ diverges c = true.
+Proof. exists w_k1_reactivate_terminal_then_create.
+  exact (conj w_k1_reactivate_terminal_then_create_model_matches
+        (conj w_k1_reactivate_terminal_then_create_code w_k1_reactivate_terminal_then_create_diverges)). Qed.
+Lemma k2_refuted : exists c, C13_mismatch c = false /\ C13_monitor c = 3 /\ diverges c = true.
+Proof. exists w_k2_create_complete_create.
+  exact (conj w_k2_create_complete_create_model_matches
+        (conj w_k2_create_complete_create_code w_k2_create_complete_create_diverges)). Qed.
+Lemma k3_refuted : exists c, C13_mismatch c = false /\ C13_monitor c = 4 /\ diverges c = true.
+Proof. exists w_k3_complete_then_gc.
+  exact (conj w_k3_complete_then_gc_model_matches (conj w_k3_complete_then_gc_code w_k3_complete_then_gc_diverges)). Qed.
+Lemma k4_refuted : exists c, C13_mismatch c = false /\ C13_monitor c = 5 /\ diverges c = true.
+Proof. exists w_k4_cleanup_then_write.
+  exact (conj w_k4_cleanup_then_write_model_matches (conj w_k4_cleanup_then_write_code w_k4_cleanup_then_write_diverges)). Qed.
+Lemma k5_refuted : exists c, C13_mismatch c = false /\ C13_monitor c = 6 /\ diverges c = true.
+Proof. exists w_k5_create_claim_complete.
+  exact (conj w_k5_create_claim_complete_model_matches
+        (conj w_k5_create_claim_complete_code w_k5_create_claim_complete_diverges)). Qed.
